@@ -71,7 +71,26 @@ theorem wf_mark (h : WfS a none) (hc0 : c0 ∈ a.conns) : WfS (a.markUnlinked c0
       have := h.conn_unique hc hc0 he.1.symm
       subst this
       exact ⟨he.2.1, he.2.2.1, he.2.2.2⟩
-    refine ⟨by rw [mark_server_ids]; exact hs.nodup, ?_, ?_, ?_⟩
+    refine ⟨by rw [mark_server_ids]; exact hs.nodup, ?_, ?_, ?_, ?_⟩
+    rotate_left 3
+    · -- a connection that is still linked is another one; its server still lists it
+      intro fd' srv t hm
+      obtain ⟨c, hc, he⟩ := mem_cF4.mp hm
+      obtain ⟨c1, hc1, rfl⟩ := mem_conns_mark.mp hc
+      simp only [Prod.mk.injEq] at he
+      by_cases hfd : c1.fd = c0.fd
+      · simp only [hfd, ↓reduceIte] at he
+        exact absurd he.2.1 (by simp)
+      · simp only [hfd, ↓reduceIte] at he
+        obtain ⟨v, hv, hvid, hvc⟩ := hs.linked c1.fd c1.srv c1.tcp (mem_cF4.mpr ⟨c1, hc1, by
+          have : c1.unlinked = false := he.2.1.symm
+          rw [this]⟩)
+        refine ⟨_, mem_servers_mark.mpr ⟨v, hv, rfl⟩, ?_, ?_⟩
+        · rw [he.2.2.1, ← hvid]; split <;> rfl
+        · rw [he.1]
+          split
+          · exact (List.mem_erase_of_ne hfd).mpr hvc
+          · exact hvc
     · intro v hv
       obtain ⟨v1, hv1, rfl⟩ := mem_servers_mark.mp hv
       split
@@ -122,6 +141,26 @@ theorem step_mark {xf xi d} : StepS xf xi d a (a.markUnlinked c0.fd c0.srv c0.tc
   refine ⟨q, mem_cFUQ.mpr ⟨_, mem_conns_mark.mpr ⟨c, hc, rfl⟩, ?_⟩, fun _ hx => hx⟩
   split <;> simp [he]
 
+theorem filter_mark_aux (l : List CSk) (fd : Nat) :
+    ((l.map fun e => if e.fd == fd then { e with unlinked := true } else e).map
+        fun c => (c.fd, c.unlinked, c.queries)).filter (fun x => x.1 != fd) =
+      (l.map fun c => (c.fd, c.unlinked, c.queries)).filter (fun x => x.1 != fd) := by
+  induction l with
+  | nil => rfl
+  | cons e r ih =>
+    simp only [List.map_cons, List.filter_cons, ih]
+    by_cases he : e.fd = fd
+    · have h1 : (e.fd == fd) = true := by simpa using he
+      have h2 : (e.fd != fd) = false := by simp [he]
+      simp only [h1, ↓reduceIte, h2, Bool.false_eq_true]
+    · have h1 : (e.fd == fd) = false := by simpa using he
+      simp only [h1, Bool.false_eq_true, ↓reduceIte]
+
+/-- unlinking only changes the entry of the connection itself -/
+theorem mark_cFUQ_filter :
+    (a.markUnlinked c0.fd c0.srv c0.tcp).cFUQ.filter (fun x => x.1 != c0.fd) = a.cFUQ.filter (fun x => x.1 != c0.fd) :=
+  filter_mark_aux a.conns c0.fd
+
 theorem debt_mark {x d} (hd : DebtOk x d a) : DebtOk x d (a.markUnlinked c0.fd c0.srv c0.tcp) :=
   hd.congr rfl rfl rfl rfl rfl
 
@@ -170,7 +209,10 @@ theorem wf_removeConn (h : WfS a none) (hc0 : c0 ∈ a.conns) (hu : c0.unlinked 
       rw [hu] at he; exact absurd he.2.1 (by simp)
     exact ⟨hs.nodup, hs.connsNodup, fun v hv fd' hfd' => by
       obtain ⟨t, ht⟩ := hs.conns v hv fd' hfd'; exact ⟨t, keep _ _ _ ht⟩,
-      fun v hv fd' hfd' => keep _ _ _ (hs.tcp v hv fd' hfd')⟩
+      fun v hv fd' hfd' => keep _ _ _ (hs.tcp v hv fd' hfd'),
+      fun fd' srv t hm => by
+        obtain ⟨c, hcm, he⟩ := mem_cF4.mp hm
+        exact hs.linked fd' srv t (mem_cF4.mpr ⟨c, (mem_conns_remove.mp hcm).1, he⟩)⟩
 
 theorem step_removeConn {xi d} : StepS (some c0.fd) xi d a (a.removeConn c0.fd) := by
   refine StepS.of_same rfl rfl rfl rfl rfl rfl rfl ?_
@@ -179,6 +221,11 @@ theorem step_removeConn {xi d} : StepS (some c0.fd) xi d a (a.removeConn c0.fd) 
   simp only [Prod.mk.injEq] at he
   refine ⟨q, mem_cFUQ.mpr ⟨c, mem_conns_remove.mpr ⟨hc, fun hfd => hne ?_⟩, by simp [he]⟩, fun _ hx => hx⟩
   rw [he.1, hfd]
+
+theorem removeConn_cFUQ : (a.removeConn c0.fd).cFUQ = a.cFUQ.filter (fun x => x.1 != c0.fd) := by
+  unfold Sk.removeConn Sk.cFUQ
+  simp only [List.filter_map]
+  rfl
 
 theorem debt_removeConn {x d} (hd : DebtOk x d a) : DebtOk x d (a.removeConn c0.fd) :=
   hd.congr rfl rfl rfl rfl rfl
